@@ -802,6 +802,7 @@ def sweeper_body(fl):
 # deadline, the due set, the conflict passed on), R06.4 = charge and entry go together, R16.5 = the cost
 # reported is the charge read before its release, R08.2 = the value reported is the removed one
 SWEEPER_ASPECTS = {
+    "C01": {"R05.6", "R06.4"},   # a charge is released for exactly the entries the sweep removes: no resident entry goes uncharged
     "C03": {"R05.6"}, "C04": {"R05.6", "R06.4"}, "C05": {"R05.6", "R06.4", "R16.5", "R08.2", "R05.8"}, "C06": {"R06.4"}, "C11": {"R05.6"},
     "C16": {"R16.5"}, "C08": {"R08.2", "R06.4", "R05.8"}, "C09": {"R05.6"},
 }
@@ -820,6 +821,10 @@ def _sweeper_all(rep, fl):
     tr = calls_to(x, SM + "::try_remove")[0]
     if len(prs) != 1:
         rep.bad("R06.4", fl, x, "remove pair", "the sweeper removes the entry from the store without releasing its policy charge (policy.remove calls: %d): the charge outlives the entry" % len(prs), loc=tr[1]["sp"])
+        # fail closed: without the one policy.remove(k) none of the obligations that hang on it (guard, cost read
+        # before the release, reported item) can be decided for this sweeper
+        for r_ in ("R05.6", "R16.5", "R08.2"):
+            rep.bad(r_, fl, x, "remove pair", "the sweeper does not release the charge of each swept key with one policy.remove(k) (calls: %d): the guard on that release, the cost read before it and the item reported for it cannot be established" % len(prs), loc=tr[1]["sp"])
         return
     pr = prs[0]
     pc = calls_to(x, fl.policy + "::cost")
@@ -833,6 +838,8 @@ def _sweeper_all(rep, fl):
                 tvar = ea[2][0]
     if tvar is None:
         rep.bad("R05.6", fl, x, "re-check", "the sweeper removes bucket keys without re-checking the stored deadline (is_expired)", loc=pr[1]["sp"])
+        for r_ in ("R06.4", "R16.5", "R08.2"):
+            rep.bad(r_, fl, x, "re-check", "the sweeper removes bucket keys without re-checking the stored deadline (is_expired): what it releases and reports is not tied to an expired entry", loc=pr[1]["sp"])
         return
     # provenance of t: payload of expiration(self, k)
     src_ok = False
@@ -1148,6 +1155,9 @@ def check_C05(rep, fl):
     props_cache.check_policy_cost(rep, fl)   # "handed to on_evict .. with its .. charged cost"
     check_single_section(rep, fl, "R05.2", [EM + "::try_insert", EM + "::try_update", EM + "::try_remove", EM + "::try_cleanup"],
                          "looking a bucket up and creating, filling or removing it")
+    # "within .. one cleanup interval": the configured interval is the one the processor ticks with
+    import props_panic
+    props_panic.check_builder_plumbing(rep, fl, only_sites=("set_cleanup_duration", "set_* keeps cleanup_duration", "flags -> processor"))
 
 
 LOCK_CALLS = ("Mutex::lock", "RwLock::read", "RwLock::write", "RwLock::upgradable_read", "Mutex::try_lock", "RwLock::try_read", "RwLock::try_write",
@@ -1186,5 +1196,8 @@ def check_C09(rep, fl):
     # ... and the policy's update wrapper hands it on unconditionally (whatever the cost)
     import props_policy
     props_policy.check_policy_forwarding(rep, fl)
+    # a vetoed plain insert is forwarded as a New item of a tracked key: add() un-charges sampled victims only, and
+    # only for lack of room - never the key it was called for - so the resident entry is not evicted by its own rewrite
+    keep_rules(rep, fl, props_policy.check_C07, {"R07.2", "R07.6"})
     check_store_writes(rep, fl)
     check_ttl_plumbing(rep, fl)
